@@ -15,18 +15,20 @@ open Bermuda
 
 /-! ## `parse_date` on the documented spellings -/
 
+/-- the number a run of ASCII digits spells -/
+def digitsVal (cs : List Char) : Nat := cs.foldl (fun n c => n * 10 + (c.toNat - 48)) 0
+
 def digits? (cs : List Char) : Option Nat :=
-  if cs.isEmpty || !cs.all Char.isDigit then none else (String.ofList cs).toNat?
+  if cs.isEmpty || !cs.all Char.isDigit then none else some (digitsVal cs)
 
 def mkDate? (y m d : Nat) : Except Err Date :=
   let dt : Date := ⟨(y : Int), m, d⟩
   if 1 ≤ y && y ≤ 9999 && dt.valid then .ok dt else .error .valueError
 
-/-- `parse_date(value)` for a string: `YYYY`, `YYYYQn`, `YYYYHn`, `YYYY-MM`, `YYYY-MM-DD` (surrounding
-blanks stripped); everything else the model refuses with `ValueError` (pandas accepts many more
-spellings — those are outside the model and not generated) -/
-def parseDate (s : String) : Except Err Date :=
-  match s.trimAscii.toString.toList with
+/-- `parse_date` on the characters of the stripped text: `YYYY`, `YYYYQn`, `YYYYHn`, `YYYY-MM`,
+`YYYY-MM-DD`; everything else the model refuses with `ValueError` (pandas accepts many more spellings —
+those are outside the model and not generated) -/
+def parseDateChars : List Char → Except Err Date
   | [a, b, c, d] =>
     match digits? [a, b, c, d] with
     | some y => mkDate? y 1 1
@@ -48,6 +50,9 @@ def parseDate (s : String) : Except Err Date :=
     | some y, some m, some dd => mkDate? y m dd
     | _, _, _ => .error .valueError
   | _ => .error .valueError
+
+/-- `parse_date(value)` for a string (surrounding blanks stripped) -/
+def parseDate (s : String) : Except Err Date := parseDateChars s.trimAscii.toString.toList
 
 /-- a period entry as the caller wrote it -/
 inductive PeriodEntry where
